@@ -48,11 +48,12 @@ def _family(job, d):
 
     def uri(n):
         return 'sqlite:///' + os.path.join(d, n + '.sqlite')
-    res = {'job': job, 'kind': 'multisig', 'traces': [], 'keys': [], 'desc': {}, 'setup_error': None, 'problems': []}
+    res = {'job': job, 'kind': 'multisig', 'traces': [], 'keys': [], 'desc': {}, 'setup_error': None, 'problems': [], 'objects': []}
     seeds = [bytes(rng.getrandbits(8) for _ in range(32)) for _ in range(3)]
     hks = [HDKey.from_seed(s, network=net, witness_type=wt, multisig=True) for s in seeds]
     mine = rng.randrange(3)                                  # the cosigner whose private key this wallet holds
     given = [hks[i] if i == mine else hks[i].public_master(witness_type=wt, multisig=True) for i in range(3)]
+    snaps = [c09.obj_snapshot(g) for g in given]          # the cosigner key objects are used for two wallets
     order = list(range(3))
     rng.shuffle(order)
     try:
@@ -60,7 +61,9 @@ def _family(job, d):
     except Exception as e:
         res['setup_error'] = 'Wallet.create(multisig 2-of-3, %s, %s): %r' % (net, wt, e)
         return res
-    cfg = {'net': net, 'wt': wt, 'acct': 0, 'ms': True, 'cos': int(w.cosigner_id), 'watch': False}
+    cfg = {'net': net, 'wt': wt, 'acct': 0, 'ms': True, 'cos': int(w.cosigner_id), 'watch': False, 'kwt': wt}
+    for i in range(3):
+        res['objects'].append(c09.object_record('Wallet.create(keys=[cosigner key objects], sigs_required=2, witness_type=%s)' % wt, snaps[i], given[i]))
     drv = c09.Driver(w, name, uri(name), cfg, rng)
     drv.gentle = bool(job.get('gentle'))
     drv.ooo = bool(job.get('ooo'))
@@ -77,6 +80,8 @@ def _family(job, d):
             for i in range(top + 1):
                 w2.key_for_path([], change=ch, address_index=i)
         restored.append({'kind': 'multisig', 'net': net, 'wt': wt, 'acct': 0, 'keys': c09.restored_rows(w2)})
+        for i in range(3):
+            res['objects'].append(c09.object_record('two multisig wallets made from it and their histories', snaps[i], given[i]))
     except Exception as e:
         res['problems'].append('second wallet from the same cosigner keys raised %r' % e)
     rows, _ = c09.table_of(name, uri(name), material=False)
